@@ -62,7 +62,10 @@ def _fsolve_case(draw):
         "eps": draw(gen.f(0.0, 0.5)),
         "b": [draw(gen.f(-3, 3)) for _ in range(n)],
         "x0": [draw(gen.f(-2, 2)) for _ in range(n)],
-        "mode": draw(st.sampled_from(["exact", "exact", "2-point", "3-point", "cs", "inexact", "superlu"])),
+        # pinv: an underdetermined system (only the first m < n residual components) solved with the module's minimum-norm
+        # linear solver pinv_solve
+        "mode": draw(st.sampled_from(["exact", "exact", "2-point", "3-point", "cs", "inexact", "superlu"] + (["pinv"] if n >= 2 else []))),
+        "m": draw(st.integers(1, max(1, n - 1))),
         "atol": draw(gen.log_uniform(-12, -3)),
         "rtol": draw(gen.log_uniform(-12, -3)),
         "max_iter": draw(st.integers(1, 30)),
@@ -151,6 +154,10 @@ def _check_fsolve(spec, res):
     F = lambda x: A @ x + eps * phi(x) - b
     J = lambda x: csc_array(A + eps * np.diag(dphi(x)))
     mode = spec["mode"]
+    if mode == "pinv":
+        m_ = int(spec.get("m", 1))
+        F = lambda x: (A @ x + eps * phi(x) - b)[:m_]
+        J = lambda x: csc_array((A + eps * np.diag(dphi(x)))[:m_, :])  # pinv_solve expects a sparse matrix
     site = f"fsolve[{mode}]"
     feats = {"mode": mode, "cond": spec["cond"]}
     kw = {}
@@ -158,6 +165,10 @@ def _check_fsolve(spec, res):
     if mode in ("2-point", "3-point", "cs"):
         opt["numerical_jacobian_method"] = mode
         jac = None
+    elif mode == "pinv":
+        from cardillo.math.fsolve import pinv_solve
+        jac = J
+        opt["linear_solver"] = pinv_solve
     elif mode == "inexact":
         jac = J
         kw["inexact"] = True
